@@ -82,6 +82,39 @@ mod verif_rle {
         assert!(zigzag_encode(v) == crate::storage::delta::zigzag_encode(v));
         assert!(zigzag_decode(u) == crate::storage::delta::zigzag_decode(u));
     }
+    macro_rules! rle_len { ($m:ident, $n:expr, $unw:expr) => { mod $m {
+        use super::*;
+        const N: usize = $n;
+        #[kani::proof] #[kani::unwind($unw)]
+        fn bytes_roundtrip() {             // BOUNDED: encode -> to_bytes -> from_bytes -> decode gives the input back
+            let v: [u64; N] = kani::any();
+            let e = RunLengthEncoding::encode(&v);
+            let b = e.to_bytes();
+            match RunLengthEncoding::from_bytes(&b) {
+                Ok(e2) => {
+                    assert!(e2.total_count() == N && e2.run_count() == e.run_count());
+                    let mut i = 0; while i < N { assert!(e2.get(i) == Some(v[i])); i += 1; }
+                    assert!(e2.get(N).is_none());
+                }
+                Err(_) => assert!(false, "own bytes rejected"),
+            }
+            kani::cover!(true);
+        }
+        #[kani::proof] #[kani::unwind($unw)]
+        fn iterator_and_signed() {         // BOUNDED: the iterator enumerates decode(); the signed wrapper round-trips
+            let v: [u64; N] = kani::any();
+            let e = RunLengthEncoding::encode(&v);
+            let mut it = e.iter();
+            let mut i = 0; while i < N { assert!(it.next() == Some(v[i])); i += 1; }
+            assert!(it.next().is_none());
+            let s: [i64; N] = kani::any();
+            let d = SignedRunLengthEncoding::encode(&s).decode();
+            assert!(d.len() == N);
+            let mut i = 0; while i < N { assert!(d[i] == s[i]); i += 1; }
+            kani::cover!(true);
+        }
+    } } }
+    rle_len!(l0, 0, 12); rle_len!(l1, 1, 12); rle_len!(l2, 2, 20); rle_len!(l3, 3, 28);
 }
 //@@FILE crates/grafeo-core/src/storage/bitpack.rs
 #[cfg(kani)]
